@@ -375,8 +375,12 @@ class Ctx:
             'wall_s': round(time.time() - self.t0, 2),
             'violations': len(self.violations),
         }
-        EVID.mkdir(exist_ok=True)
-        (EVID / f'{self.pid}.json').write_text(json.dumps(ev, indent=1, default=str))
+        # evidence/ only ever describes runs against /repo itself; runs against a
+        # scratch tree (FEMIO_REPO, seeded-defect tests) are kept apart
+        evdir = EVID if str(REPO) == '/repo' else BUILD / 'evidence_other_tree'
+        evdir.mkdir(exist_ok=True)
+        ev['coverage']['tree_under_test'] = str(REPO)
+        (evdir / f'{self.pid}.json').write_text(json.dumps(ev, indent=1, default=str))
         self.log(f'obligations {n_dis}/{n_obl}, cases {self.evaluations}, '
                  f'violations {len(self.violations)}, known {len(self.known)}')
         return 1 if self.violations else 0
